@@ -6,7 +6,8 @@ from common import *
 NEEDS_DRIVER = True
 RULE = ('subprocess runs: nesting construct (parens, brackets, CASE, function calls, subqueries, unclosed openers, BEGIN blocks, mixed) x depth (below, around and beyond the '
         'recursion limit) x recursion limit {200, 500, 1000, 3000} x entry point {parse, parsestream, split, format with option sets}; each followed by an ordinary call in the same process; '
-        'successful results are checked for round trip and tree well-formedness; non-trivial = distinct (construct, depth, limit, entry point)')
+        'successful results are checked for round trip and tree well-formedness (parent links, cached group values), formatted results for their significant tokens; every depth 1..85 at limit 80 '
+        '(parse + five layout option sets); soak: 60 failing calls in one process, then a moderately nested ordinary script; non-trivial = distinct (construct, depth, limit, entry point)')
 ASSUMPTIONS = ['CPython frame accounting and C-stack behaviour are observed, not modelled', 'lexer/splitter/grouping models tied by S-TREE on the nesting constructs (and by the streams of C01/C02/C04)']
 PARTIAL = ['over the model: the only failure of parse is RecursionError (parse_fails_only_by_depth), it is mapped to SQLParseError at every stage, enough depth always succeeds; what depth CPython needs for a given input (frame accounting, C stack) is observed by subprocess runs at several recursion limits, not modelled']
 
@@ -44,23 +45,53 @@ def wf(node):
                         if not c.tokens: return False
                         st.append(c)
     return True
+KINDS_SOAK = ['paren', 'call', 'bracket', 'case']
+def sig(t, opts):
+    # significant tokens of a text (whitespace aside; comments aside when they are stripped; keywords compared in upper case)
+    from sqlparse import lexer, tokens as T
+    out = []
+    for tt, v in lexer.tokenize(t):
+        if tt in T.Whitespace or (opts.get('strip_comments') and tt in T.Comment): continue
+        out.append((str(tt), v.upper() if tt in T.Keyword else v))
+    return out
+def later_ok():
+    # an ordinary, moderately nested script with the interpreter's default limit
+    t = 'select a, (select max(b) from (select c from (select d from t where x in (1, (2))) u) v), case when f(g(h(1))) then (((1))) end from w where a = [1]; select 2'
+    r = sqlparse.parse(t)
+    return (len(r) == 2 and ''.join(str(s) for s in r) == t and all(wf(s) for s in r)
+            and sqlparse.split('select 1; select 2') == ['select 1;', 'select 2'] and sqlparse.format('select a from b', reindent=True) == 'select a\nfrom b'
+            and sig(sqlparse.format(t, reindent=True, strip_comments=True, use_space_around_operators=True), {}) == sig(t, {}))
 out = []
 for kind, depth, limit, entry, opts in cases:
     text = build(kind, depth)
     sys.setrecursionlimit(limit)
     res = None
     try:
-        if entry == 'parse':
+        if entry == 'soak':
+            # many failing calls in a row in one process: nothing may accumulate
+            res = 'ok'
+            for i in range(60):
+                t2 = build(KINDS_SOAK[i %% len(KINDS_SOAK)], depth)
+                try:
+                    if i %% 2: sqlparse.parse(t2)
+                    else: sqlparse.format(t2, reindent=True)
+                except SQLParseError:
+                    pass
+        elif entry == 'parse':
             r = sqlparse.parse(text); res = 'ok'
             if ''.join(str(s) for s in r).strip() != text.strip(): res = 'bad-roundtrip'
+            elif not all(wf(s) and s.value == str(s) for s in r): res = 'ill-formed-tree'
         elif entry == 'parsestream':
             r = list(sqlparse.parsestream(io.StringIO(text))); res = 'ok'
             if ''.join(str(s) for s in r).strip() != text.strip(): res = 'bad-roundtrip'
+            elif not all(wf(s) and s.value == str(s) for s in r): res = 'ill-formed-tree'
         elif entry == 'split':
             r = sqlparse.split(text); res = 'ok'
             if ''.join(r).replace(' ', '') != text.replace(' ', '').strip(): res = 'bad-roundtrip'
         else:
             r = sqlparse.format(text, **opts); res = 'ok'
+            if not isinstance(r, str): res = 'bad-result'
+            elif not opts.get('output_format') and sig(r, opts) != sig(text, opts): res = 'format-changed-tokens'
     except SQLParseError:
         res = 'SQLParseError'
     except RecursionError:
@@ -69,7 +100,7 @@ for kind, depth, limit, entry, opts in cases:
         res = 'raised ' + type(e).__name__
     sys.setrecursionlimit(3000)
     try:
-        later = sqlparse.split('select 1; select 2') == ['select 1;', 'select 2'] and sqlparse.format('select a from b', reindent=True) == 'select a\nfrom b'
+        later = later_ok()
     except Exception as e:
         later = 'raised ' + type(e).__name__
     out.append([res, later])
@@ -106,6 +137,17 @@ def run(ctx):
                     if depth > 1500 and kind in ('ops', 'list', 'mixed', 'subquery', 'case'):
                         continue
                     cases.append((kind, depth, limit, entry, opts))
+    # every depth around the point where a low recursion limit starts to bite: which frame overflows first (a pass, a constructor, a filter between
+    # deleting and inserting, the serializer) changes from one depth to the next
+    SCAN_LIMIT = 80
+    for ki, kind in enumerate(KINDS):
+        for depth in range(1, (96 if not ctx.quick() else (30 if kind == 'mixed' else 86))):
+            cases.append((kind, depth, SCAN_LIMIT, 'parse', {}))
+            for oi, opts in enumerate(OPTS[1:6]):
+                if ctx.quick() and (depth + ki + oi) % 3:
+                    continue
+                cases.append((kind, depth, SCAN_LIMIT, 'format', opts))
+    cases.append(('paren', 400, 200, 'soak', {}))
     # shard into subprocesses
     from concurrent.futures import ThreadPoolExecutor
     k = min(NCPU, 12)
